@@ -50,3 +50,37 @@ Theorem c09_the_effect_is_applied_once_after_the_handlers_iff_not_consumed :
          end).
 Proof. exact deliver_one_uses_delivered_to. Qed.
 Print Assumptions c09_the_effect_is_applied_once_after_the_handlers_iff_not_consumed.
+
+(* ---------- one delivery of Insert / Remove / Despawn, end to end, on the map (entity, component) -> value ---------- *)
+Require Import EV.HList EV.Store EV.Effects EV.Reach EV.Deliver.
+(* On a consistent world, for a structural event whose target is alive, whatever the handlers do (no panic):
+   the handlers leave the set of live entities and the set of existing cells as they found them (they may change
+   values through &mut items); if one of them took the event, that is all that happened; otherwise the change is
+   applied exactly once to the world the handlers left - Insert sets (target, c) to the event's value and touches no
+   other cell, Remove deletes (target, c) and touches no other cell, Despawn deletes the target and touches no other
+   entity (or fails with the capacity panic while materialising reservations) - and the world stays consistent. *)
+Theorem c09_one_delivery_of_a_structural_event :
+  forall (beh : hinfo -> logent -> N -> script) (it : qitem) (w : world) (k : key) (info : einfo) (loc : eloc) (a : arch)
+         (w1 : world) (ev : evv) (sent : list qitem) (taken : bool),
+  WInv w -> qi_targeted it = true -> get_by_index (w_tev w) (qi_idx it) = Some (k, info) ->
+  sm_get (qi_target it) (w_ents w) = Some loc -> slab_get (w_archs w) (fst loc) = Some a ->
+  run_handlers beh (match alookup (qi_idx it) (a_listeners a) with Some l => hl_entries l | None => nil end) w it (e_tag info) loc nil
+    = (w1, ev, sent, taken, None) ->
+  let e := qi_target it in
+  WInv w1 /\ w_ents w1 = w_ents w /\ (forall e' c', abs w1 e' c' = None <-> abs w e' c' = None) /\
+  (taken = true -> deliver_one beh it w = (sent, w1, None)) /\
+  (taken = false -> match e_kind info with
+     | KInsert c => exists w3, deliver_one beh it w = (sent, w3, None) /\ WInv w3 /\
+                     abs w3 e c = Some (ev_ser ev, ev_val ev) /\ (forall c', c' <> c -> abs w3 e c' = abs w1 e c') /\
+                     (forall e' c', e' <> e -> abs w3 e' c' = abs w1 e' c')
+     | KRemove c => exists w3, deliver_one beh it w = (sent, w3, None) /\ WInv w3 /\
+                     abs w3 e c = None /\ (forall c', c' <> c -> abs w3 e c' = abs w1 e c') /\
+                     (forall e' c', e' <> e -> abs w3 e' c' = abs w1 e' c')
+     | KDespawn => exists w3 f, deliver_one beh it w = (sent, w3, f) /\ WInv w3 /\
+                     (f = None -> sm_get e (w_ents w3) = None /\ (forall c', abs w3 e c' = None) /\
+                                  (forall e' c', e' <> e -> sm_get e' (w_ents w1) <> None -> abs w3 e' c' = abs w1 e' c')) /\
+                     (f <> None -> f = Some (FPanic 5))
+     | _ => True
+     end).
+Proof. exact deliver_structural. Qed.
+Print Assumptions c09_one_delivery_of_a_structural_event.
